@@ -724,7 +724,7 @@ func checkLockOutcome(t failT, rec *ev.Recorder, o lockOutcome) {
 
 func TestC49(t *testing.T) {
 	rec := ev.New(t, "C49")
-	rec.Rule("(1) rapid-generated histories of 4..30 store/load/delete/exists/stat/list operations issued through two ChordStorage instances sharing one memory KV, over path-like keys with directories that share string prefixes (certs/a, certs/ab, certs/a.b, certs/a/b, acme/ca-1, acme/ca-10 …) and key sets in which a name is both a stored key and the parent of deeper keys (orders/pending and orders/pending/0001; directory names stored as keys; keys stored below existing keys), lists on directories, parents, the root, trailing-slash forms and on file keys, non-empty values; oracle = map-backed file-store model (non-recursive list = set of immediate children, each once, nothing else; recursive list only bracketed). Non-trivial history: it contains a non-recursive list with >=1 expected child (incl. a child that is both key and directory) or with a stored string-prefix sibling, or a load/exists of a key overwritten or deleted earlier. (2) seeded lock programmes: 2..3 instances over one KV, TTL 1 s, each runs 1..2 lock/hold/unlock steps (optionally ends by being cut off from the KV without unlocking); oracle = hold intervals [Lock returned, min(Unlock called, last successful acquire/renew invoked + TTL)] of different instances on the same key are disjoint. Non-trivial programme: >=1 acquire conflict was observed (real contention). Distinct = distinct histories / programmes.")
+	rec.Rule("(1) rapid-generated histories of 4..30 store/load/delete/exists/stat/list operations issued through two ChordStorage instances sharing one memory KV, over path-like keys with directories that share string prefixes (certs/a, certs/ab, certs/a.b, certs/a/b, acme/ca-1, acme/ca-10 …) and key sets in which a name is both a stored key and the parent of deeper keys (orders/pending and orders/pending/0001; directory names stored as keys; keys stored below existing keys), lists on directories, parents, the root, trailing-slash forms and on file keys, non-empty values; oracle = map-backed file-store model (non-recursive list = set of immediate children, each once, nothing else; recursive list only bracketed). Non-trivial history: it contains a non-recursive list with >=1 expected child (incl. a child that is both key and directory) or with a stored string-prefix sibling, or a load/exists of a key overwritten or deleted earlier. (1b) reads in flight (class read-in-flight-across-write): a Load/Exists of a key is issued and its answer is held back after the value was read; a Store or Delete of the key through either instance completes; then a second Load/Exists is started through either instance and must report that write (only then is the first read released). (2) seeded lock programmes: 2..3 instances over one KV, TTL 1 s, each runs 1..2 lock/hold/unlock steps (optionally ends by being cut off from the KV without unlocking); oracle = hold intervals [Lock returned, min(Unlock called, last successful acquire/renew invoked + TTL)] of different instances on the same key are disjoint. Non-trivial programme: >=1 acquire conflict was observed (real contention). Distinct = distinct histories / programmes.")
 	rec.Assume("keys may be both a stored key and a path prefix of other stored keys (the KV allows it); an immediate child is then still listed exactly once",
 		"the DHT behind the storage is a single in-process kv/memory store (routing and replication are other properties)",
 		"lock intervals are judged on the harness' monotonic clock; the KV judges lease expiry on the wall clock of the same process (no clock steps during a run)")
@@ -760,6 +760,11 @@ func TestC49(t *testing.T) {
 
 	ev.RapidCheck(t, 1500, 60000, func(t *rapid.T) {
 		runFsHistory(t, rec, genFsOps(t))
+	})
+
+	// reads in flight across a write
+	ev.RapidCheck(t, 300, 8000, func(rt *rapid.T) {
+		c49ReadsInFlight(rt, rec, rt)
 	})
 
 	// lock programmes run in real time, a few at once (each has its own KV)
